@@ -86,6 +86,19 @@ def check_case(ctx, case):
             src += "password %s\nsnmp-server community %s ro\n username %s secret 5 %s\n" % (r, r, r, r)
             if r.lower() != r:
                 src += "password %s\nsnmp-server community %s ro\n enable password %s\n" % (r.lower(), r.lower(), r.upper())
+    if "words" in feats and "asn" in feats and rng.random() < 0.25:
+        # what one stage ISSUES can be what another stage is told to look for: find a word whose pseudonym is all digits (the
+        # word stage alone says what it issues), list that number as an AS number, and use the word before the number
+        cand = ["site%dx%d" % (i, rng.getrandbits(16)) for i in range(60)]
+        o2 = dict(opts, words=cand, reserved=None)
+        issued = run_one(nc, o2, ["words"], "".join(c + "\n" for c in cand), False).split("\n")
+        hits = [(c, p) for c, p in zip(cand, issued) if p.isdigit() and p[0] != "0" and c != p]
+        if hits:
+            w, pseud = hits[0]
+            opts["words"] = sorted(set(opts["words"]) | {w})
+            opts["asns"] = sorted(set(opts["asns"]) | {pseud})
+            src += " description %s uplink\nrouter bgp %s\n neighbor 192.0.2.1 remote-as %s\n description %s again\n" % (w, pseud, pseud, w)
+            ctx.count("cases_with_a_listed_as_number_equal_to_an_issued_word_pseudonym")
     combined = run_one(nc, opts, feats, src, undo)
     chained = src
     for f in ORDER:
